@@ -11,7 +11,7 @@ import (
 	"verif/internal/ref"
 )
 
-var feats = gen.Features{NestedDisj: true, TopDisj: true, Call: true, Cut: true, Ite: true, Neg: true, AllSol: true, Catch: true, Write: true, Lib: true, Deep: true}
+var feats = gen.Features{NestedDisj: true, TopDisj: true, Call: true, Cut: true, Ite: true, Neg: true, AllSol: true, Catch: true, Write: true, Lib: true, Deep: true, Flags: true, Strings: true}
 
 func opts() diff.Opts {
 	o := diff.DefaultOpts()
@@ -149,6 +149,9 @@ func TestProp(t *testing.T) {
 		p := gen.GenProgram(feats).Draw(t, "program")
 		o := diff.Run(p, opts())
 		r.Label("sampled")
+		if p.DQ != "" || p.UnknownFail {
+			r.Label("with_non_default_flags")
+		}
 		if p.Deep {
 			r.Label("with_a_deep_recursion")
 		}
